@@ -1551,10 +1551,11 @@ output_3byte_vex_opcode (OrcCompiler *p, const OrcX86Insn *xinsn)
       break;
     case ORC_VEX_SIMD_PREFIX_66:
     case ORC_SIMD_PREFIX_MMX:
-    case ORC_SIMD_PREFIX_ESCAPE_ONLY:
       byte3 |= 0x1; 
       break;
     case ORC_VEX_SIMD_PREFIX_NONE:
+    case ORC_SIMD_PREFIX_ESCAPE_ONLY:
+      /* no 66/F2/F3 prefix: the single-precision (ps) forms */
       break;
     default:
       ORC_COMPILER_ERROR(p, "unhandled VEX.pp for instruction type %x", xinsn->opcode->prefix);
